@@ -36,6 +36,16 @@ NPROC = int(os.environ.get("VERIF_JOBS", "16"))
 SLOW_S = float(os.environ.get("VERIF_SLOW", "0"))
 
 
+def fresh(value):
+    """an equal but not identical object: strings are rebuilt at run time (not interned), integers beyond the
+    small-int cache are recomputed; code that compares with `is` instead of `==` then shows"""
+    if isinstance(value, str) and len(value) >= 2:
+        return ''.join(list(value))
+    if isinstance(value, int) and not isinstance(value, bool) and abs(value) > 256:
+        return int(str(value))
+    return value
+
+
 class Violation(Exception):
     """The property does not hold on this case."""
 
